@@ -112,6 +112,13 @@ func staticMask(b *ssa.BasicBlock) uint {
 		}
 		break
 	}
+	// a constant condition (a helper's boolean parameter bound to a literal at the call site)
+	if v, isK := isBoolConst(c); isK {
+		if v == pol {
+			return 1
+		}
+		return 2
+	}
 	bo, ok := c.(*ssa.BinOp)
 	if !ok || (bo.Op != token.EQL && bo.Op != token.NEQ) {
 		return full
